@@ -125,11 +125,19 @@ where
         );
 
         // Get the log ids which are associated with this topic query.
-        let logs = self
-            .store
-            .resolve(&self.topic)
-            .await
-            .map_err(|err| TopicLogSyncError::TopicStore(err.to_string()))?;
+        let logs = match self.store.resolve(&self.topic).await {
+            Ok(logs) => logs,
+            Err(err) => {
+                // Like every other error this one ends the session with a "failed" event.
+                let err = TopicLogSyncError::TopicStore(err.to_string());
+                self.event_tx
+                    .send(TopicLogSyncEvent::Failed {
+                        error: err.to_string(),
+                    })
+                    .map_err(|_| TopicLogSyncChannelError::EventSend)?;
+                return Err(err);
+            }
+        };
 
         if enabled!(Level::DEBUG) {
             let display_logs: BTreeMap<String, usize> =
